@@ -274,3 +274,15 @@ func init() {
 		}
 	})
 }
+
+// Prometheus name validators (github.com/prometheus/common/model): environment for the parser kernels. Contract: a
+// total predicate of the text; modelled as an arbitrary answer per call.
+func init() {
+	for _, k := range []string{"github.com/prometheus/common/model.IsValidMetricName", "(github.com/prometheus/common/model.LabelName).IsValid", "(github.com/prometheus/common/model.LabelValue).IsValid"} {
+		atomTolerant[k] = true
+		key := k
+		extraIntrinsics = append(extraIntrinsics, func(e *Engine) {
+			e.intr[key] = func(e *Engine, st *State, cc *ssa.CallCommon, a []Value) Value { return e.freshAnon("promvalid", BoolSort) }
+		})
+	}
+}
